@@ -1258,6 +1258,9 @@ def _deep_arm(f: Fn, r, arm: str, pred: str, obj: str, typ: str, container: str,
         if not known_instance(f.guards(ret), obj, {container}):
             ok, why = False, 'the %s arm can answer True for an object that is not a %s' % (arm, container)
             continue
+        from .. import guards as G_
+        if (obj, False) in {G_.canon_atom(gg, p) for gg, p in f.guards(ret)}:
+            continue        # an empty container: there is no element to check (the loops would not run either)
         loops = [n for n in f.walk() if isinstance(n, ast.For) and f.alpha.text(n.iter) in (obj, '%s.items()' % obj, '%s.values()' % obj, '%s.keys()' % obj)
                  and any(p and arm_guard(gg) for gg, p in f.guards(n.iter))
                  and f.cfg.dominates(f.nid(n.iter), f.nid(ret)) and not any(x is n for x in _ancestors_list(ret))]
